@@ -30,11 +30,10 @@ theorem litBody_none_iff (sep n sg : Bool) (body : List UInt8) :
 
 /-- the number branch reports a syntax error exactly when the specification rejects the numeral -/
 theorem tailNum_syntax_iff (g : Globals) (d : Go.Bytes) (neg : Bool)
-    (hred : ∀ rm neg sig exp trunc, ∃ r, Gen.RoundingMode.reduce128 rm neg sig exp trunc = .ok r)
     (hsz : d.size < 2^63) (r : Gen.Decimal) (e : Go.Err) (h : tailNum g d neg = .ok (r, e)) :
     e = .parseSyntaxError ↔ Spec.readNumber true (d.toList.map toChar) = none := by
-  obtain ⟨r', e', h1, h2⟩ := parseNumber_total' g d neg true hred hsz
-  have key := parseNumber_syntax_accF g d neg true hred hsz r' e' h1
+  obtain ⟨r', e', h1, h2⟩ := parseNumber_total' g d neg true hsz
+  have key := parseNumber_syntax_accF g d neg true hsz r' e' h1
   rw [accF_eq_readNumber] at key
   rw [tailNum_of_ok g d neg r' e' h1] at h
   injection h with h; injection h with _ he
@@ -45,7 +44,6 @@ theorem tailNum_syntax_iff (g : Globals) (d : Go.Bytes) (neg : Bool)
   cases Spec.readNumber true (d.toList.map toChar) <;> simp
 
 theorem restM_syntax_iff (g : Globals) (op : UInt64) (body : List UInt8) (neg n sg : Bool)
-    (hred : ∀ rm neg sig exp trunc, ∃ r, Gen.RoundingMode.reduce128 rm neg sig exp trunc = .ok r)
     (hsz : body.length < 2^63) (r : Gen.Decimal) (e : Go.Err) (h : restM g op body neg = .ok (r, e)) :
     e = .parseSyntaxError ↔ litBody true true n sg (body.map toChar) = none := by
   rw [litBody_none_iff]
@@ -76,7 +74,7 @@ theorem restM_syntax_iff (g : Globals) (op : UInt64) (body : List UInt8) (neg n 
     have h2 : isNanL [b0, b1, b2] = false := by simpa [isNanL] using hn
     rw [h1, h2]
     simp only [true_and]
-    exact tailNum_syntax_iff g #[b0, b1, b2] neg hred (by simp) r e h
+    exact tailNum_syntax_iff g #[b0, b1, b2] neg (by simp) r e h
   · -- eight bytes
     rename_i b0 b1 b2 b3 b4 b5 b6 b7
     by_cases hi : isInf8 b0 b1 b2 b3 b4 b5 b6 b7 = true
@@ -90,7 +88,7 @@ theorem restM_syntax_iff (g : Globals) (op : UInt64) (body : List UInt8) (neg n 
     have h2 : isNanL [b0, b1, b2, b3, b4, b5, b6, b7] = false := rfl
     rw [h1, h2]
     simp only [true_and]
-    exact tailNum_syntax_iff g #[b0, b1, b2, b3, b4, b5, b6, b7] neg hred (by simp) r e h
+    exact tailNum_syntax_iff g #[b0, b1, b2, b3, b4, b5, b6, b7] neg (by simp) r e h
   · -- any other length
     rename_i h0 h3 h8
     have h1 : isInfL body = false := by
@@ -106,12 +104,11 @@ theorem restM_syntax_iff (g : Globals) (op : UInt64) (body : List UInt8) (neg n 
       · rfl
     rw [h1, h2]
     simp only [true_and]
-    have := tailNum_syntax_iff g body.toArray neg hred (by simpa using hsz) r e h
+    have := tailNum_syntax_iff g body.toArray neg (by simpa using hsz) r e h
     simpa using this
 
 /-- `parse` reports a syntax error exactly when the specification rejects the literal -/
 theorem parseM_syntax_iff (g : Globals) (op : UInt64) (cs : List UInt8)
-    (hred : ∀ rm neg sig exp trunc, ∃ r, Gen.RoundingMode.reduce128 rm neg sig exp trunc = .ok r)
     (hsz : cs.length < 2^63) (r : Gen.Decimal) (e : Go.Err) (h : parseM g op cs = .ok (r, e)) :
     e = .parseSyntaxError ↔ Spec.readLiteral true true (cs.map toChar) = none := by
   cases cs with
@@ -128,17 +125,17 @@ theorem parseM_syntax_iff (g : Globals) (op : UInt64) (cs : List UInt8)
     · subst h43
       rw [if_pos (by decide)] at h
       rw [if_neg (show toChar 43 ≠ '-' by decide), if_pos (show toChar 43 = '+' from rfl)]
-      exact restM_syntax_iff g op body false false true hred (by omega) r e h
+      exact restM_syntax_iff g op body false false true (by omega) r e h
     by_cases h45 : c = 45
     · subst h45
       rw [if_neg (by decide), if_pos (by decide)] at h
       rw [if_pos (show toChar 45 = '-' from rfl)]
-      exact restM_syntax_iff g op body true true true hred (by omega) r e h
+      exact restM_syntax_iff g op body true true true (by omega) r e h
     · rw [if_neg (by simpa using h43), if_neg (by simpa using h45)] at h
       have e1 : toChar c ≠ '-' := fun hh => h45 (toChar_inj (hh.trans toChar_45.symm))
       have e2 : toChar c ≠ '+' := fun hh => h43 (toChar_inj (hh.trans toChar_43.symm))
       rw [if_neg e1, if_neg e2, ← List.map_cons]
-      exact restM_syntax_iff g op (c :: body) false false false hred (by simpa using hsz) r e h
+      exact restM_syntax_iff g op (c :: body) false false false (by simpa using hsz) r e h
 
 
 end Parse
